@@ -61,6 +61,34 @@ type memStore struct {
 	manifestDone map[string]map[scannerKey]bool
 	reports      map[string]*claircore.IndexReport
 	indexed      map[string][]*claircore.IndexRecord
+
+	// reads of the scan artifacts while an Index call runs (the store reads of controller.coalesce):
+	// logged in order; the read number faultAt (0-based, -1 = none) fails
+	recording bool
+	faultAt   int
+	readLog   []storeRead
+}
+
+// storeRead is one PackagesByLayer / DistributionsByLayer / RepositoriesByLayer / FilesByLayer call.
+type storeRead struct {
+	Method   string
+	Layer    string
+	NonEmpty bool
+}
+
+var errInjected = fmt.Errorf("injected store read fault")
+
+// read logs one artifact read and decides whether it fails. Call with s.mu held.
+func (s *memStore) read(method, layer string, n int) error {
+	if !s.recording {
+		return nil
+	}
+	k := len(s.readLog)
+	s.readLog = append(s.readLog, storeRead{method, layer, n > 0})
+	if k == s.faultAt {
+		return errInjected
+	}
+	return nil
 }
 
 var _ indexer.Store = (*memStore)(nil)
@@ -71,6 +99,7 @@ func newMemStore() *memStore {
 		pkgArts: map[layerScan][]pkgArtifact{}, distArts: map[layerScan][]int{}, repoArts: map[layerScan][]int{}, fileArts: map[layerScan][]claircore.File{},
 		scanned: map[layerScan]bool{}, manifests: map[string][]string{}, manifestDone: map[string]map[scannerKey]bool{},
 		reports: map[string]*claircore.IndexReport{}, indexed: map[string][]*claircore.IndexRecord{},
+		faultAt: -1,
 	}
 }
 
@@ -176,6 +205,9 @@ func (s *memStore) PackagesByLayer(ctx context.Context, hash claircore.Digest, s
 			out = append(out, &p)
 		}
 	}
+	if err := s.read("PackagesByLayer", hash.String(), len(out)); err != nil {
+		return nil, err
+	}
 	return out, nil
 }
 
@@ -189,6 +221,9 @@ func (s *memStore) DistributionsByLayer(ctx context.Context, hash claircore.Dige
 			d.ID = strconv.Itoa(id)
 			out = append(out, &d)
 		}
+	}
+	if err := s.read("DistributionsByLayer", hash.String(), len(out)); err != nil {
+		return nil, err
 	}
 	return out, nil
 }
@@ -204,6 +239,9 @@ func (s *memStore) RepositoriesByLayer(ctx context.Context, hash claircore.Diges
 			out = append(out, &r)
 		}
 	}
+	if err := s.read("RepositoriesByLayer", hash.String(), len(out)); err != nil {
+		return nil, err
+	}
 	return out, nil
 }
 
@@ -213,6 +251,9 @@ func (s *memStore) FilesByLayer(ctx context.Context, hash claircore.Digest, scnr
 	out := []claircore.File{}
 	for _, sc := range scnrs {
 		out = append(out, s.fileArts[layerScan{hash.String(), skey(sc)}]...)
+	}
+	if err := s.read("FilesByLayer", hash.String(), len(out)); err != nil {
+		return nil, err
 	}
 	return out, nil
 }
